@@ -33,7 +33,7 @@ from sim.canon import digest  # noqa: E402
 BUDGETS = {
     # property: (quick runs, thorough runs)
     "C10": (12000, 240000),
-    "C11": (3500, 70000),
+    "C11": (2500, 50000),
     "C12": (10000, 200000),
     "C13": (6000, 120000),
     "C15": (2500, 50000),
